@@ -191,6 +191,8 @@ static SCase gen_case() {
     s.m[2] = R(-2, s.bits.w + 1) * 65536 + pick<int64_t>({0, 1, -1, 2, 32768, 32767, 32769}) - s.m[0] / 2;
     s.m[5] = R(-2, s.bits.h + 1) * 65536 + pick<int64_t>({0, 1, -1, 2, 32768, 32767, 32769}) - s.m[4] / 2;
   }
+  if (coin(8))
+    for (auto &e : s.m) e = -e;  // the same map in homogeneous coordinates, with w negative at every pixel (seeded C08s)
   s.filter = pickw({5, 5, 3, 4, 1, 1, 1});
   if (s.filter == 2) {
     s.kw = (int)R(1, 5);
@@ -466,6 +468,7 @@ static Verdict run_case(const SCase &c) {
   v.label(fmt("filter%d", s.filter));
   v.label(fmt("repeat%d", s.repeat));
   if (!affine) v.label("projective");
+  if (m[8] < 0 && projective_w_nonpos) v.label("w_negative_everywhere");
   if (sc.has_mask) v.label(sc.op == PIXMAN_OP_OVER ? "a8_mask_over" : "a8_mask_src");
   if (s.bits.w >= 20000) v.label("very_wide_source");
   if (s.has_alpha_map) v.label("source_alpha_map");
